@@ -336,6 +336,13 @@ func (e *Evaluator) evalExpr(expr Expr) (*Cell, error) {
 	case *ExprObject:
 		obj := NewObject()
 		for _, kv := range exp.Items {
+			// a quoted key is a string literal like any other, escapes included
+			keyCell, err := e.evalString(kv.Key)
+			if err != nil {
+				return nil, e.error(expr.Token(), err.Error())
+			}
+			key := *keyCell.Value.Str
+
 			value, err := e.evalExpr(kv.Value)
 			if err != nil {
 				return nil, err
@@ -347,7 +354,7 @@ func (e *Evaluator) evalExpr(expr Expr) (*Cell, error) {
 				return nil, e.error(expr.Token(), err.Error())
 			}
 
-			(*obj.Obj)[kv.Key] = newCell
+			(*obj.Obj)[key] = newCell
 		}
 		return NewCell(obj), nil
 	default:
